@@ -4,14 +4,17 @@
    type() and length() of the slot it went through; "check" events carry the complete tree of every root (kinds,
    scalar values, reference counts of the shared containers, items in order); "eq" and "facts" events carry the
    result of a comparison and of every accessor/conversion, which must equal the specification's EqR / Facts.
-   The trace is accepted iff every line is a step of the corresponding VarHeap action whose post-state matches. *)
-EXTENDS VarHeap, IOUtils
+   The trace is accepted iff every line is a step of the corresponding VarHeap action whose post-state matches.
+   Growth (VarApi): "assignTyped" / "assignC" calls, enumerations logged as enumBegin / enumNext (key, type and text of
+   the delivered item, the value assigned through the reference) / enumEnd with other calls in between (every such
+   call must satisfy EnumStable), and "facts" events that carry the wide observation g = Facts2 of the slot.        *)
+EXTENDS VarApi, IOUtils
 
 T == ndJsonDeserialize(IOEnv.TRACE)
 VARIABLE l
-tvars == <<vars, l>>
+tvars == <<vars, en, l>>
 
-TInit == Init /\ l = 1
+TInit == InitApi /\ l = 1
 
 PostOK(e) == LET x == SlotVal(heap', root', e.p) IN
              /\ x # Missing
@@ -28,23 +31,31 @@ FactsOK(e) == /\ IsSlot(e.p)
               /\ LET f == Facts(heap, SlotVal(heap, root, e.p)) IN
                  /\ f.ty = e.f.ty /\ f.isn = e.f.isn /\ f.len = e.f.len /\ f.i = e.f.i /\ f.d2 = e.f.d2
                  /\ f.b = e.f.b /\ f.s = e.f.s /\ f.cont = e.f.cont
+              /\ LET g == Facts2(heap, SlotVal(heap, root, e.p)) IN
+                 /\ g.ai = e.g.ai /\ g.ad = e.g.ad /\ g.ab = e.g.ab /\ g.as = e.g.as
+                 /\ g.oi = e.g.oi /\ g.od = e.g.od /\ g.ob = e.g.ob /\ g.os = e.g.os
+                 /\ g.has = e.g.has /\ g.call = e.g.call /\ g.call2 = e.g.call2 /\ g.rd = e.g.rd
+                 /\ g.cidx = e.g.cidx /\ g.ord = e.g.ord /\ g.arrof = e.g.arrof
+                 \* == with literals: 1 / 0 where the specification decides, anything where it is open; 2 = the spellings disagree
+                 /\ Len(e.g.eql) = Len(g.eql)
+                 /\ \A j \in 1..Len(g.eql) : CASE g.eql[j] = "t" -> e.g.eql[j] = 1 [] g.eql[j] = "f" -> e.g.eql[j] = 0 [] OTHER -> TRUE
+\* the item an enumeration step delivered and what the loop body assigned to it
+EnumNextT(e) == /\ e.set \in ScalarsAll \cup {Keep}
+                /\ EnumNext(e.set)
+                /\ LET r == hist'[Len(hist')] IN r.k = e.k /\ r.ty = e.ty /\ r.s = e.s
+EnumEndT(e) == /\ EnumEnd
+               /\ hist'[Len(hist')].more = e.more
 
-TStep ==
-  /\ l <= Len(T)
-  /\ l' = l + 1
-  /\ LET e == T[l] IN
-     \/ /\ e.op = "reset"
-        /\ root' = [r \in 1..NR |-> NoneV]
-        /\ heap' = [n \in Nodes |-> FreeNode]
-        /\ hist' = <<>> /\ hz' = {}
-     \/ /\ e.op = "check" /\ CheckOK(e) /\ UNCHANGED vars
-     \/ /\ e.op = "eq" /\ EqOK(e) /\ UNCHANGED vars
-     \/ /\ e.op = "facts" /\ FactsOK(e) /\ UNCHANGED vars
+\* the calls of VarHeap / VarApi outside enumerations
+TCall(e) ==
      \/ /\ e.op = "assignScalar" /\ e.val \in {ScalarTab[i] : i \in 1..Len(ScalarTab)}
         /\ IsSlot(e.p) /\ Commit(Store(heap, root, e.p, e.val), [op |-> "assignScalar", p |-> e.p, val |-> e.val], {})
         /\ PostOK(e)
      \/ /\ e.op = "assignFrom" /\ AssignFrom(e.p, e.q) /\ PostOK(e)
      \/ /\ e.op = "assignNew" /\ AssignNew(e.p, e.shape) /\ PostOK(e)
+     \/ /\ e.op = "assignTyped" /\ AssignTyped(e.p, e.kind, e.T, e.n) /\ PostOK(e)
+     \/ /\ e.op = "assignC" /\ AssignC(e.p, e.ct, e.n) /\ PostOK(e)
+     \/ /\ e.op = "assignKind" /\ AssignKind(e.p, e.c) /\ PostOK(e)
      \/ /\ e.op = "indexInt" /\ IndexInt(e.p, e.i) /\ PostOK(e)
      \/ /\ e.op = "indexKey" /\ IndexKey(e.p, e.k) /\ PostOK(e)
      \/ /\ e.op = "appendScalar" /\ e.val \in {ScalarTab[i] : i \in 1..Len(ScalarTab)}
@@ -53,10 +64,28 @@ TStep ==
      \/ /\ e.op = "appendFrom" /\ AppendFrom(e.p, e.q) /\ PostOK(e)
      \/ /\ e.op = "resize" /\ Resize(e.p, e.n) /\ PostOK(e)
      \/ /\ e.op = "clear" /\ Clear(e.p) /\ PostOK(e)
-     \/ /\ e.op = "removeAt" /\ RemoveIdx(e.p, e.i) /\ PostOK(e)
+     \/ /\ e.op = "removeAt" /\ (IF e.n = 1 THEN RemoveIdx(e.p, e.i) ELSE RemoveN(e.p, e.i, e.n)) /\ PostOK(e)
      \/ /\ e.op = "removeKey" /\ RemoveKey(e.p, e.k) /\ PostOK(e)
-     \/ /\ e.op = "extend" /\ Extend(e.p, e.q) /\ PostOK(e)
+     \/ /\ e.op = "extend" /\ IsSlot(e.q)
+        /\ (IF Kind(heap, SlotVal(heap, root, e.q)) = "obj" THEN Extend(e.p, e.q) ELSE ExtendNonObj(e.p, e.q)) /\ PostOK(e)
      \/ /\ e.op = "clone" /\ Clone(e.p[1], e.q) /\ PostOK(e)
+EnumOps == {"enumBegin", "enumNext", "enumEnd"}
+TStep ==
+  /\ l <= Len(T)
+  /\ l' = l + 1
+  /\ LET e == T[l] IN
+     \/ /\ e.op = "reset"
+        /\ root' = [r \in 1..NR |-> NoneV]
+        /\ heap' = [n \in Nodes |-> FreeNode]
+        /\ hist' = <<>> /\ hz' = {} /\ en' = NoEnum
+     \/ /\ e.op = "check" /\ CheckOK(e) /\ UNCHANGED <<vars, en>>
+     \/ /\ e.op = "eq" /\ EqOK(e) /\ UNCHANGED <<vars, en>>
+     \/ /\ e.op = "facts" /\ FactsOK(e) /\ UNCHANGED <<vars, en>>
+     \/ /\ e.op \notin {"reset", "check", "eq", "facts"} \cup EnumOps
+        /\ TCall(e) /\ en' = en /\ EnumStable
+     \/ /\ e.op = "enumBegin" /\ EnumBegin(e.p)
+     \/ /\ e.op = "enumNext" /\ EnumNextT(e)
+     \/ /\ e.op = "enumEnd" /\ EnumEndT(e)
 
 TraceSpec == TInit /\ [][TStep]_tvars
 TraceAccepted == TLCGet("stats").diameter - 1 = Len(T)
